@@ -329,9 +329,11 @@ func fieldRegion(owner types.Type, field string) string {
 }
 
 func (h *Heap) ReadField(s *State, owner types.Type, f *types.Var, ref *Term) Value {
+	checkInterior(ref)
 	return h.readLeaves(s, fieldRegion(owner, f.Name()), 1, f.Type(), ref, nil)
 }
 func (h *Heap) WriteField(s *State, owner types.Type, f *types.Var, ref *Term, v Value) {
+	checkInterior(ref)
 	h.writeLeaves(s, fieldRegion(owner, f.Name()), 1, f.Type(), ref, nil, v)
 }
 
@@ -347,6 +349,7 @@ func (h *Heap) WriteCell(s *State, elem types.Type, ref *Term, v Value) {
 
 // LoadPtr reads *p for any pointee type.
 func (h *Heap) LoadPtr(s *State, elem types.Type, ref *Term) Value {
+	checkInterior(ref)
 	if kindOf(elem) == kStruct {
 		st := elem.Underlying().(*types.Struct)
 		v := Value{T: elem, Fields: make([]Value, st.NumFields())}
@@ -359,6 +362,7 @@ func (h *Heap) LoadPtr(s *State, elem types.Type, ref *Term) Value {
 }
 
 func (h *Heap) StorePtr(s *State, elem types.Type, ref *Term, v Value) {
+	checkInterior(ref)
 	if kindOf(elem) == kStruct {
 		st := elem.Underlying().(*types.Struct)
 		for i := 0; i < st.NumFields(); i++ {
@@ -621,4 +625,12 @@ func hasModBVar(t *Term) bool {
 		}
 	}
 	return false
+}
+
+// checkInterior: &s[i] is an opaque address in this generator; a load or store through it is outside the
+// modelled subset (the cell it aliases would not see it), so the function cannot be verified as written.
+func checkInterior(ref *Term) {
+	if ref != nil && ref.Op == "app" && strings.HasPrefix(ref.Name, "elemaddr_") {
+		panic(unsupported("access through an interior pointer into a slice cell (&s[i]): not tracked by the generator"))
+	}
 }
